@@ -415,6 +415,29 @@ def renderer_doc(tree, clsname, consts, mm_fn):
     return ("Cat", [txs[0], ("Star", ("Alt", txs[1:-1])), txs[-1]])
 
 
+def type_names():
+    """textx/lang.py: BASE_TYPE_NAMES (rule names of the rules listed in BASE_TYPE_RULES) and the extra name of ALL_TYPE_NAMES"""
+    tree, _ = parse_file("textx/lang.py")
+    assigns = {n.targets[0].id: n.value for n in tree.body if isinstance(n, ast.Assign) and len(n.targets) == 1 and isinstance(n.targets[0], ast.Name)}
+    btr = assigns.get("BASE_TYPE_RULES")
+    need(isinstance(btr, ast.DictComp) and ast.unparse(btr.key) == "rule.rule_name" and ast.unparse(btr.value) == "rule"
+         and len(btr.generators) == 1 and isinstance(btr.generators[0].iter, ast.List) and not btr.generators[0].ifs, "BASE_TYPE_RULES changed")
+    need(ast.unparse(assigns.get("BASE_TYPE_NAMES")) == "list(BASE_TYPE_RULES.keys())", "BASE_TYPE_NAMES changed")
+    allt = assigns.get("ALL_TYPE_NAMES")
+    need(isinstance(allt, ast.BinOp) and isinstance(allt.op, ast.Add) and ast.unparse(allt.left) == "BASE_TYPE_NAMES" and isinstance(allt.right, ast.List)
+         and len(allt.right.elts) == 1 and isinstance(allt.right.elts[0], ast.Constant) and isinstance(allt.right.elts[0].value, str), "ALL_TYPE_NAMES changed")
+    names = []
+    for e in btr.generators[0].iter.elts:
+        need(isinstance(e, ast.Name) and isinstance(assigns.get(e.id), ast.Call), "BASE_TYPE_RULES lists something unexpected")
+        call = assigns[e.id]
+        rn = [k.value for k in call.keywords if k.arg == "rule_name"]
+        if not rn and len(call.args) >= 2 and ast.unparse(call.func) == "_":
+            rn = [call.args[1]]
+        need(len(rn) == 1 and isinstance(rn[0], ast.Constant) and isinstance(rn[0].value, str), "rule name of %s not found" % e.id)
+        names.append(rn[0].value)
+    return names, allt.right.elts[0].value
+
+
 def compute():
     """(chain, limit, {name: tx}) read from the current source"""
     tree, _ = parse_file("textx/export.py")
@@ -471,6 +494,8 @@ def translate():
              "  [" + ";\n   ".join("(%d%%N, %s)" % (ord(a), coq_codes(b)) for a, b in chain) + "].",
              "Definition repr_limit : nat := %d." % limit,
              "Definition export_header : list N := %s." % coq_codes(model_doc[1][0][1] if model_doc[1][0][0] == "Lit" else ""),
+             "Definition base_type_names : list (list N) := [%s]." % "; ".join(coq_codes(x) for x in type_names()[0]),
+             "Definition object_name : list N := %s." % coq_codes(type_names()[1]),
              "Definition model_doc : tx :=\n  %s." % coq_tx(simp(model_doc)),
              "Definition metamodel_doc : tx :=\n  %s." % coq_tx(simp(mm_doc)),
              "Definition plantuml_doc : tx :=\n  %s." % coq_tx(simp(pu_doc)),
